@@ -38,7 +38,12 @@ def normalize(view: str, entries: typing.List[crawl.Entry], gemlike: bool) -> ty
         elif e.local:
             out.append(("search" if (e.search or e.type == "7") else "local", name, e.selector))
         else:
-            out.append(("remote", name, norm_remote(e.url)))
+            tgt = norm_remote(e.url)
+            if tgt[0] == "gopher" and tgt[1] == driver.SERVER_NAME.encode() and tgt[2] == crawl.LOCAL_PORT:
+                # a gopher:// URL that names this very server and port is the local object
+                out.append(("search" if tgt[3] == b"7" else "local", name, tgt[4]))
+            else:
+                out.append(("remote", name, tgt))
     return out
 
 
